@@ -313,6 +313,30 @@ def enclosing_conditions(node, fnode) -> typing.List[typing.Tuple[ast.AST, bool]
   return list(reversed(out))
 
 
+def reaching_conditions(node, fnode) -> typing.List[typing.Tuple[ast.AST, bool]]:
+  """enclosing_conditions plus the early exits before node: a preceding sibling `if T: ... return / raise / continue / break`
+  (in any enclosing block) means node is reached only when T was false (or true, when it is the else branch that leaves)."""
+  def leaves(block):
+    return bool(block) and isinstance(block[-1], (ast.Return, ast.Raise, ast.Continue, ast.Break))
+  out = list(enclosing_conditions(node, fnode))
+  cur = node
+  while cur is not None and cur is not fnode:
+    par = getattr(cur, "_parent", None)
+    for fld in ("body", "orelse", "finalbody"):
+      blk = getattr(par, fld, None)
+      if isinstance(blk, list) and any(x is cur for x in blk):
+        for prev in blk:
+          if prev is cur:
+            break
+          if isinstance(prev, ast.If):
+            if leaves(prev.body) and not leaves(prev.orelse):
+              out.append((prev.test, False))
+            elif leaves(prev.orelse) and not leaves(prev.body):
+              out.append((prev.test, True))
+    cur = par
+  return out
+
+
 def local_value(stmts, name: str) -> typing.Optional[ast.AST]:
   """The expression a local holds after the given statement list, where `if T: v = a  else: v = b`
   (nested if / elif included) counts as `v = a if T else b`; None when some path leaves it unassigned
